@@ -398,10 +398,12 @@ theorem getDtypeK_inv (k : Kind) (len : Option Int) (d : DT) (h : getDtypeK k le
       split at h
       · cases h
       · rename_i hv
-        cases h
-        refine ⟨rfl, ?_, ?_⟩
-        · intro x hx; simp at hx; subst hx; simpa using hal
-        · intro hv'; simp [hv'] at hv
+        split at h
+        · cases h
+        · cases h
+          refine ⟨rfl, ?_, ?_⟩
+          · intro x hx; simp at hx; subst hx; simpa using hal
+          · intro hv'; simp [hv'] at hv
 
 theorem mkDtype_inv (name : Str) (len : Option Int) (d : DT) (h : mkDtype name len = .ok d) :
     ∃ k l, getDtypeK k l = .ok d := by
@@ -479,8 +481,7 @@ theorem tokBits_setFn (kw : Kw) (t : Tok) (pv : Option Val) (tb : Bits) (d : DT)
           simp only [mkDtype, getDtype] at hd
           have : kindOfName (String.ofList "bits".toList) = .ok .bits := by decide
           rw [this] at hd
-          simp [getDtypeK, Kind.allows, Kind.variable] at hd
-          exact hd.symm
+          exact getDtypeK_some _ _ _ hd
       subst hd'
       rcases hcanon with ⟨hp, -⟩ | ⟨v, rfl, hc⟩
       · rw [hbits] at hp; exact absurd hp (by decide)
@@ -604,7 +605,8 @@ theorem token_piece (kw : Kw) (t : Tok) (pv : Option Val) (tb : Bits) (d : DT)
       have := Nat.div_mul_cancel (Nat.dvd_of_mod_eq_zero hrem)
       exact_mod_cast this.symm
     refine ⟨hrem, ⟨k, some ((tb.length / k.mult : Nat) : Int)⟩, ?_, ?_⟩
-    · rw [getDtypeK]; simp only [hal, Bool.not_true, Bool.false_eq_true, if_false, hv]
+    · have hnn : ¬ (((tb.length / k.mult : Nat) : Int) < 0) := not_lt.mpr (Int.natCast_nonneg _)
+      rw [getDtypeK]; simp only [hal, Bool.not_true, Bool.false_eq_true, if_false, hv, hnn]
     · intro pre post
       have hs' := setFn_stretchy strToBits k pv tb hset _ hx
       apply readDT_fixed ⟨k, some _⟩ tb pv pre post hv
@@ -721,7 +723,7 @@ theorem hex_wrong_size' (kw : Kw) (n : Nat) (s : Str) (hs : s.all isLowerHex = t
   obtain ⟨tb, h1, h2, -⟩ := hex_roundtrip s hs
   cases hal : Kind.hex.allows (n : Int) with
   | true =>
-    rw [tokBits_plain_fixed kw _ _ _ .hex (by decide) (by decide) (by decide) hal (by rfl)]
+    rw [tokBits_plain_fixed kw _ _ _ .hex (by decide) (by decide) (by decide) hal (by rfl) (by omega)]
     have hm : Kind.hex.mult = 1 := rfl
     have : ¬ ((tb.length : Int) = n) := by omega
     simp [buildDT, setFn, DT.bitlen, strArg, Except.bind, h1, hm, this]
